@@ -7,6 +7,7 @@ pub mod c03;
 pub mod c04;
 pub mod c06;
 pub mod c07;
+pub mod c08;
 pub mod c09;
 pub mod c10;
 pub mod c11;
@@ -19,7 +20,7 @@ pub mod c17;
 pub mod c18;
 pub mod c19;
 
-pub const ALL: &[&str] = &["C01", "C03", "C04", "C06", "C07", "C09", "C10", "C11", "C12", "C13", "C14", "C15", "C16", "C17", "C18", "C19"];
+pub const ALL: &[&str] = &["C01", "C03", "C04", "C06", "C07", "C08", "C09", "C10", "C11", "C12", "C13", "C14", "C15", "C16", "C17", "C18", "C19"];
 
 pub fn run(c: &Ctx) -> bool {
     match c.prop.as_str() {
@@ -28,6 +29,7 @@ pub fn run(c: &Ctx) -> bool {
         "C04" => c04::run(c),
         "C06" => c06::run(c),
         "C07" => c07::run(c),
+        "C08" => c08::run(c),
         "C09" => c09::run(c),
         "C10" => c10::run(c),
         "C11" => c11::run(c),
@@ -51,6 +53,7 @@ pub fn replay(prop: &str, kind: &str, case: &Value) -> Option<CaseResult> {
         "C04" => c04::replay(kind, case),
         "C06" => c06::replay(kind, case),
         "C07" => c07::replay(kind, case),
+        "C08" => c08::replay(kind, case),
         "C09" => c09::replay(kind, case),
         "C10" => c10::replay(kind, case),
         "C11" => c11::replay(kind, case),
